@@ -4,11 +4,27 @@ import json
 import numpy as np
 
 from .. import core, prox_lib as pl
+from translator import prox as tp, tables
 
 UNITS = ("linear", "glinear", "mlp", "gmlp")
 HOW = ("gemclus.sparse._prox_grad.<linear_prox_grad|group_linear_prox_grad|mlp_prox_grad|group_mlp_prox_grad> on the "
        "arrays of `input` (W / W_skip, W1, alpha, M, groups); oracle: harness.prox_lib.gl_oracle / h_oracle; "
        "re-run: ./check C05 --replay <this file>")
+
+
+def regen(ctx):
+    """regenerate Gen/Prox.lean (the NumPy code of soft_threshold / linear_prox_grad / mlp_prox_grad and the two group loops,
+    as gemclus/sparse/_prox_grad.py says now); Props/C05Gen.lean proves it equal to the hand model Model/Prox.lean the
+    C05 / C06 theorems are stated about"""
+    try:
+        data, text = tp.prox()
+    except (tables.TranslationFailure, SyntaxError, OSError) as e:
+        ctx.extra["translation_failure"] = f"prox: {e}"
+        return None
+    changed = core.write_if_changed(core.LEAN + "/GemVerif/Gen/Prox.lean", text)
+    ctx.translation = {"units": [f"{u['file']}::{u['function']} -> Gen/Prox.lean::{name}" for name, u in data.items()],
+                       "regenerated": len(data), "identical_to_committed": not changed}
+    return data
 
 
 def run_impl(inp):
@@ -302,6 +318,7 @@ def run(ctx):
                 "<= 4 features (shuffled) + random partitions of 5; breakpoint-targeted rows hit every idx in 0..h; zero skip "
                 "rows only with u = 0 and alpha > 0.  Non-trivial = some input weight is non-zero; distinct = hash of (unit, "
                 "arrays, alpha, M, groups).")
+    regen(ctx)
     ctx.do_prove()
     quick = ctx.tier == "quick"
     depth = 16 if quick else 250
